@@ -412,6 +412,21 @@ pub fn lookalikes() -> Vec<Call> {
     add("haystack_value_set_list_entry_at", vec![v(19), A::N(1), v(18)]);
     add("haystack_value_set_list_entry_at", vec![v(19), A::N(0), v(15)]);
     add("haystack_value_to_zinc_string", vec![v(19)]);
+    // scalar handles written as text AT TOP LEVEL, each text with exactly one kind of character a writer escapes
+    // (`$` alone, a quote alone, ...), as Str, Uri, Symbol-like Ref display name and XStr payload
+    let mut k = 21;
+    for t in ["cost: $5", "$", "a$b", "${x}", "US$ 100 €", "say \"hi\"", "back\\slash", "tab\there", "tick`s", "line\nbreak", "plain"] {
+        add("haystack_value_make_str", vec![cs(t)]);
+        add("haystack_value_to_zinc_string", vec![v(k)]);
+        add("haystack_value_to_json_string", vec![v(k)]);
+        add("haystack_value_make_uri", vec![cs(t)]);
+        add("haystack_value_to_zinc_string", vec![v(k + 1)]);
+        add("haystack_value_make_ref_with_dis", vec![cs("r"), cs(t)]);
+        add("haystack_value_to_zinc_string", vec![v(k + 2)]);
+        add("haystack_value_make_xstr", vec![cs("Bin"), cs(t)]);
+        add("haystack_value_to_zinc_string", vec![v(k + 3)]);
+        k += 4;
+    }
     calls
 }
 
